@@ -520,7 +520,11 @@ fn translate_mode(spec: &Spec, f_sig: &Signature, body: &Block, sigs: &BTreeMap<
             let k = if spec.effects.is_empty() { k } else { format!("(list call * {})%type", k) };
             if monadic { format!(" : outcome ({})", k) } else { format!(" : {}", k) }
         }
-        None => String::new(),
+        None => match spec.annot {
+            Some(a) if monadic => format!(" : outcome ({})", a),
+            Some(a) => format!(" : {}", a),
+            None => String::new(),
+        },
     };
     let def = format!("Definition {} {}{} :=\n{}.", spec.name, binders.join(" "), annot, term);
     let sig = Sig {
@@ -2305,7 +2309,7 @@ impl<'a> Ctx<'a> {
                     }
                     k(c, Tm::app(format!("ptr_add {} {}", recv.s, a.s), Ty::Ptr))
                 }),
-                (t, m) if is_int(t) && c.spec.id_methods.iter().any(|x| *x == m) && args.is_empty() => k(c, recv.clone()),
+                (t, m) if (is_int(t) || matches!(t, Ty::Abs(_))) && c.spec.id_methods.iter().any(|x| *x == m) && args.is_empty() => k(c, recv.clone()),
                 (Ty::ISize, "checked_mul") if args.len() == 1 => c.expr(args[0], &|c, a| {
                     if a.ty != Ty::ISize {
                         return unsup("isize::checked_mul with a non-isize operand", mc.span());
